@@ -553,7 +553,14 @@ func MakeForeign(r *rng.R, opts ForeignOpts) *Foreign {
 		case 7:
 			w.feature("sdt-block")
 			w.block = "sdt-block"
-			body.WriteString("<" + w.el("sdt") + "><" + w.el("sdtPr") + "/><" + w.el("sdtContent") + ">" + w.paragraph(0) + w.paragraph(0) + "</" + w.el("sdtContent") + "></" + w.el("sdt") + ">")
+			pr := "<" + w.el("sdtPr") + "/>"
+			if gi := r.Intn(5); gi > 0 {
+				// building-block content controls of other galleries (quick tables, cover pages, ...) look like a TOC control except for the gallery name
+				gal := []string{"", "Tables", "Cover Pages", "Custom Table of Figures", "Bibliographies"}[gi]
+				w.feature("sdt-gallery:" + gal)
+				pr = "<" + w.el("sdtPr") + "><" + w.el("docPartObj") + "><" + w.el("docPartGallery") + w.at("val", gal) + "/><" + w.el("docPartUnique") + "/></" + w.el("docPartObj") + "></" + w.el("sdtPr") + ">"
+			}
+			body.WriteString("<" + w.el("sdt") + ">" + pr + "<" + w.el("sdtContent") + ">" + w.paragraph(0) + w.paragraph(0) + "</" + w.el("sdtContent") + "></" + w.el("sdt") + ">")
 			w.block = ""
 		case 8:
 			if len(mediaIDs) > 0 {
